@@ -194,7 +194,7 @@ impl Prop for C17 {
         "C17"
     }
     fn rule(&self) -> String {
-        "bases: module sets of 1..3 modules × 1..6 assignments (thorough: up to 14) drawn from 14 assignment forms (single- and multi-line) under 3 header forms, in LF and CRLF, with and without interleaved line/block comments, flush left / indented as a whole / with only END indented / with an 8-line block comment before the corrupted unit; every unit (header or assignment) × every token position (and the final END of the input) × {delete, replace by / insert `§` or a no-break space (start no ASN.1 token; the second is white-space to Rust but not to ASN.1), replace by / insert each of ::= { } ( , INTEGER x 1}; each corrupted text given as a literal (all) and as a file path (the `§` edits, in every line-ending / comment layout). Only runs returning Err(Lexer(MatchingError)) are judged. Oracle: 0<=offset<=len on a char boundary; line = 1 + #LF before offset; offset >= first token of the corrupted unit (of the preceding unit when its first token is hit); for `§` edits offset <= position of `§`; Display line = contextualize-marked line = ReportData.line, and the marked text is that line of the input; src_file and the Display path present iff the source was a path. Non-trivial: a MatchingError was returned and judged.".into()
+        "bases: module sets of 1..3 modules × 1..6 assignments (thorough: up to 14) drawn from 14 assignment forms (single- and multi-line) under 3 header forms, in LF and CRLF, with and without interleaved line/block comments, flush left / indented as a whole / with only END indented / with an 8-line block comment before the corrupted unit; every unit (header or assignment) × every token position (and the final END of the input) × {delete, replace by / insert `§` or a no-break space (start no ASN.1 token; the second is white-space to Rust but not to ASN.1), replace by / insert each of ::= { } ( , INTEGER x 1 /* \"}; each corrupted text given as a literal (all) and as a file path (the `§` edits, in every line-ending / comment layout). Only runs returning Err(Lexer(MatchingError)) are judged. Oracle: 0<=offset<=len on a char boundary; line = 1 + #LF before offset; offset >= first token of the corrupted unit (of the preceding unit when its first token is hit); for `§` edits offset <= position of `§`; Display line = contextualize-marked line = ReportData.line, and the marked text is that line of the input; src_file and the Display path present iff the source was a path. Non-trivial: a MatchingError was returned and judged.".into()
     }
     fn enumerate(&self, tier: Tier, _seed: u64) -> Vec<Case> {
         // base unit lists
@@ -219,7 +219,8 @@ impl Prop for C17 {
         for a in ASSIGNMENTS {
             bases.push(vec![header("M", 0), a.to_string(), "END".into()]);
         }
-        let withs = ["§", "\u{a0}", "::=", "{", "}", "(", ",", "INTEGER", "x", "1"];
+        // (`/*` and `"` open an item that the rest of the input may never close)
+        let withs = ["§", "\u{a0}", "::=", "{", "}", "(", ",", "INTEGER", "x", "1", "/*", "\""];
         let mut out = vec![];
         for (bi, units) in bases.iter().enumerate() {
             // the final END deleted: the input ends in white-space behind the last definition
@@ -247,7 +248,7 @@ impl Prop for C17 {
                         for w in withs {
                             for e in ["replace", "insert"] {
                                 out.push(Case { units: units.clone(), unit: u, tok: t, edit: e.into(), with: w.into(), crlf, comments, as_path: false, layout: layout.into() });
-                                if w == "§" || w == "\u{a0}" {
+                                if w == "§" || w == "\u{a0}" || w == "/*" {
                                     out.push(Case { units: units.clone(), unit: u, tok: t, edit: e.into(), with: w.into(), crlf, comments, as_path: true, layout: layout.into() });
                                 }
                             }
